@@ -157,6 +157,16 @@ where
     preceded(many0(alt((comment, into_inner(multispace1)))), inner)
 }
 
+/// Matches a sequence of two reserved words such as `BIT STRING` or `WITH COMPONENTS`.
+/// The words are separate lexical items (X.680 12.38), so any white-space and comments
+/// may stand between them.
+pub fn reserved_words<'a>(
+    sequence: &'static str,
+) -> impl Parser<Input<'a>, Output = Input<'a>, Error = ErrorTree<'a>> {
+    let (first, second) = sequence.split_once(' ').unwrap_or((sequence, ""));
+    recognize(pair(tag(first), skip_ws_and_comments(tag(second))))
+}
+
 pub fn in_parentheses<'a, F>(
     inner: F,
 ) -> impl Parser<Input<'a>, Output = F::Output, Error = F::Error>
